@@ -1,5 +1,7 @@
 import Muxide.Model.Api
 import Muxide.Model.Frag
+import Muxide.Model.Builder
+import Muxide.Spec.BuilderSpec
 /-
   Driver.Proto — the line protocol shared with /verif/harness: parsing of cases, parsing of
   implementation replies, printing of model replies in the same canonical form.
@@ -139,6 +141,7 @@ structure PCase where
   novideo : Bool
   twin : String
   ops : List (List String)
+  bops : Option (List BOp) := none      -- explicit builder call sequence (`bops=`), oldest first
 
 def parseMetadata (ts : List String) : Option Metadata :=
   if kv ts "md" != some "1" then none else
@@ -158,6 +161,34 @@ def parseConfig (ts : List String) : Config :=
     width := ((kv ts "w").getD "640").toNat!, height := ((kv ts "h").getD "480").toNat!,
     audio := audio, md := parseMetadata ts, fast := (kv ts "fast").getD "1" == "1" }
 
+def parseVp9Dots (v : String) : Option Vp9Config :=
+  match (v.splitOn ".").map (·.toNat!) with
+  | [w, h, p, bd, cs, tf, mc, l, fr] => some ⟨w, h, p, bd, cs, tf, mc, l, fr⟩
+  | _ => none
+
+/-- one builder call of a `bops=` list (fields separated by ':'; `~` = absent) -/
+def parseBOp (t : String) : Option BOp :=
+  let optHex (v : String) : Option Bytes := if v == "~" then none else some (unhex v)
+  match t.splitOn ":" with
+  | ["v", c, w, h] => some (.video (parseVCodec c) w.toNat! h.toNat!)
+  | ["sv", c, w, h] => some (.setVideoTrack (parseVCodec c) w.toNat! h.toNat!)
+  | ["a", c, r, ch] => some (.audio ⟨r.toNat!, ch.toNat!, parseACodec c⟩)
+  | ["sa", c, r, ch] => some (.setAudioTrack ⟨r.toNat!, ch.toNat!, parseACodec c⟩)
+  | ["md", t, c, l] => some (.withMetadata { title := optHex t, ctime := (if c == "~" then none else some c.toNat!),
+                                               language := (optHex l).map utf8Decode })
+  | ["fs", b] => some (.withFastStart (b == "1"))
+  | ["sps", x] => some (.withSps (unhex x))
+  | ["pps", x] => some (.withPps (unhex x))
+  | ["vps", x] => some (.withVps (unhex x))
+  | ["av1", x] => some (.withAv1 (unhex x))
+  | ["vp9", x] => (parseVp9Dots x).map .withVp9
+  | ["ct", t] => some (.setCreateTime t.toNat!)
+  | ["lg", l] => some (.setLanguage (utf8Decode (unhex l)))
+  | _ => none
+
+def parseBOps (ts : List String) : Option (List BOp) :=
+  (kv ts "bops").map fun v => ((v.splitOn ",").filter (· ≠ "")).filterMap parseBOp
+
 def parsePCase (id rest : String) : PCase :=
   let (cfgS, opsS) := match rest.splitOn "|" with
     | [a, b] => (a, b)
@@ -165,11 +196,16 @@ def parsePCase (id rest : String) : PCase :=
     | a :: bs => (a, "|".intercalate bs)
     | [] => ("", "")
   let ts := toks cfgS
-  { id := id, cfgToks := ts, cfg := parseConfig ts,
+  let bops := parseBOps ts
+  -- with an explicit builder call sequence the oracles read the configuration off its declarative
+  -- meaning (Spec.effectiveConfig), never off the builder model
+  let eff := bops.map Spec.effectiveConfig
+  { id := id, cfgToks := ts,
+    cfg := match eff with | some (some c) => c | _ => parseConfig ts,
     policy := parsePolicy ((kv ts "sink").getD "ok"),
-    novideo := kv ts "novideo" == some "1",
+    novideo := match eff with | some none => true | _ => kv ts "novideo" == some "1",
     twin := (kv ts "twin").getD "none",
-    ops := (splitTrim opsS ";").map toks }
+    ops := (splitTrim opsS ";").map toks, bops := bops }
 
 /-! ### replies of the progressive muxer -/
 inductive PR where
@@ -221,9 +257,11 @@ def replyPR : Reply → PR
 def f64Tok (s : String) : F64 := F64.ofBits (hexNat s)
 
 /-- run the model on a progressive case -/
-def runPWith (c : PCase) (cfg : Config) (ops : List (List String)) : PObs := Id.run do
-  if c.novideo then return { replies := [(PR.other "builderr:MissingVideoConfig:-", 0)], file := [] }
-  let some m0 := buildChecked cfg | return { replies := [(PR.other "builderr:Io:-", 0)], file := [] }
+def runPFrom (c : PCase) (start : BuildRes) (ops : List (List String)) : PObs := Id.run do
+  let m0 ← match start with
+    | .missingVideoConfig => return { replies := [(PR.other "builderr:MissingVideoConfig:-", 0)], file := [] }
+    | .io => return { replies := [(PR.other "builderr:Io:-", 0)], file := [] }
+    | .ok m => pure m
   let mut m := m0
   let mut sink : Sink PSinkState := { st := { script := c.policy.script } }
   let mut out : Array (PR × Nat) := #[]
@@ -260,7 +298,14 @@ def runPWith (c : PCase) (cfg : Config) (ops : List (List String)) : PObs := Id.
     if reply == .panic || consumed then break
   return { replies := out.toList, file := sink.got }
 
-def runP (c : PCase) : PObs := runPWith c c.cfg c.ops
+def runPWith (c : PCase) (cfg : Config) (ops : List (List String)) : PObs :=
+  runPFrom c (if c.novideo then .missingVideoConfig else match buildChecked cfg with | some m => .ok m | none => .io) ops
+
+/-- the model run: with an explicit builder call sequence the muxer comes from the builder model -/
+def runP (c : PCase) : PObs :=
+  match c.bops with
+  | some b => runPFrom c (Builder.run b).build c.ops
+  | none => runPWith c c.cfg c.ops
 
 def isWriteOp (op : List String) : Bool :=
   match op with
@@ -322,7 +367,13 @@ def parseFCase (id rest : String) : FCase :=
   let direct : FragConfig := ⟨num "w" 1920, num "h" 1080, num "ts" 90000, num "fd" 2000,
     sps.getD [], pps.getD [], vps, av1, vp9⟩
   let ops := (splitTrim opsS ";").map toks
-  if via == "builder" then
+  if via == "bops" then
+    match (Builder.run ((parseBOps ts).getD [])).newWithFragment with
+    | .ok c => { id := id, cfgToks := ts, cfg := some c, buildErr := "", ops := ops }
+    | .missingVideoConfig => { id := id, cfgToks := ts, cfg := none, buildErr := "builderr:MissingVideoConfig:-", ops := ops }
+    | .io => { id := id, cfgToks := ts, cfg := none, buildErr := "builderr:Io:-", ops := ops }
+  else if via == "default" then { id := id, cfgToks := ts, cfg := some FragConfig.default, buildErr := "", ops := ops }
+  else if via == "builder" then
     -- `MuxerBuilder::new_with_fragment`
     let codec := parseVCodec ((kv ts "codec").getD "h264")
     let mk (s p : Bytes) (v a : Option Bytes) (c : Option Vp9Config) : FragConfig :=
@@ -365,6 +416,7 @@ def runF (c : FCase) : List FReply := Id.run do
       | ["fready"] => r := f.ready
       | ["fdur"] => r := f.durMs
       | ["finit"] => let (f', r') := f.init; f := f'; r := r'
+      | ["finitfresh"] => r := (({ cfg := cfg } : Frag).init).2
       | _ => r := .panic
       out := out.push r
       if r == .panic then break
